@@ -63,6 +63,8 @@ def full(kind, N, v):
 
 
 def flat(kind, N, m):
+    if isinstance(m, Stored):
+        return list(m)
     ts, ss = tsize(N), ssize(N)
     if kind == 'x':
         return [m]
@@ -133,6 +135,43 @@ def polar(F):
         if d < 1e-15:
             break
     return R, mul2(tr2(R), F)
+
+def _frac_lu(v, n):
+    """exact (rational) Gauss-Jordan on the n x n matrix stored row-major in v: (inverse rows, determinant)"""
+    from fractions import Fraction
+    a = [[Fraction(v[i * n + j]) for j in range(n)] + [Fraction(int(i == j)) for j in range(n)] for i in range(n)]
+    d = Fraction(1)
+    for c in range(n):
+        p = next((r for r in range(c, n) if a[r][c] != 0), None)
+        if p is None:
+            return None, Fraction(0)
+        if p != c:
+            a[c], a[p] = a[p], a[c]
+            d = -d
+        d *= a[c][c]
+        piv = a[c][c]
+        a[c] = [x / piv for x in a[c]]
+        for r in range(n):
+            if r != c and a[r][c] != 0:
+                f = a[r][c]
+                a[r] = [x - f * y for x, y in zip(a[r], a[c])]
+    return [row[n:] for row in a], d
+
+
+class Stored(list):
+    """a result given directly as a storage vector (flat() returns it unchanged)"""
+
+
+def inv_stored(v):
+    n = int(round(math.sqrt(len(v))))
+    inv, _ = _frac_lu(v, n)
+    return Stored(float(x) for row in inv for x in row)
+
+
+def det_stored(v):
+    n = int(round(math.sqrt(len(v))))
+    return float(_frac_lu(v, n)[1])
+
 
 SPEC = {
     't_mul': lambda N, a, b: mul2(a, b),
@@ -214,9 +253,15 @@ SPEC = {
     'A_dsquare2': lambda N, s, c: mul44(symR(add4(tpld4(s), tprd4(s))), c),
     'D_tpld2': lambda N, b, c: mul44(symR(tpld4(b)), c),
     'D_tprd2': lambda N, a, c: mul44(symR(tprd4(a)), c),
-    'A_dev_d2det': lambda N, s: mul44(mul44(K4S, symL(symR(d2det4(dev2(s))))), K4S),
+    'A_dev_d2det': lambda N, s: mul44(mul44(K4S, symL(symR(d2det4(dev2(s))))), K4S),  # (Coq: the same through devL/devR)
     'A_pull_back': lambda N, c, F: pf4(inv2(F), c),
     't_fromFortran': lambda N, m: tr2(m),
+    # invert / det of fourth-order tensors: the inverse of a linear map on (symmetric) tensors is the inverse of its matrix
+    # on the Mandel (resp. 9-component) storage, which is an orthonormal basis: exact rational arithmetic on the inputs
+    'A_invert': lambda N, a: inv_stored(flat('A', N, a)),
+    'A_invert_rt': lambda N, a: IdS4,
+    'A_det': lambda N, a: det_stored(flat('A', N, a)),
+    'B_det': lambda N, a: det_stored(flat('B', N, a)),
     # polar decomposition: independent of the eigenvalues handed to the traced expression
     't_polar_U': lambda N, F, vp: polar(F)[1],
     't_polar_R': lambda N, F, vp: polar(F)[0],
